@@ -241,7 +241,7 @@ PLANS["C14"] = {
     "assumptions": ["an application that writes through core::fmt::Write cannot see the sink's error value (fmt::Error carries none); the harness handler maps it to a marker value which the library must pass on unchanged"],
     "exhaustive": {"quick": True, "thorough": True},
     "exhaustive_note": {"quick": "every write/flush call position of every scenario of the corpus, both failure modes", "thorough": "the same for four buffer/prompt configurations per scenario"},
-    "min_counts": {"quick": {"c14.scenarios": 130, "c14.positions_fired": 2400}, "thorough": {"c14.scenarios": 500, "c14.positions_fired": 9000}},
+    "min_counts": {"quick": {"c14.scenarios": 130, "c14.positions_fired": 2000}, "thorough": {"c14.scenarios": 500, "c14.positions_fired": 8000}},
     "stages": [{"variant": "dbg", "workload": "C14", "shards": 16}],
 }
 MANIFEST_TEXT["C14"] = {
@@ -266,7 +266,7 @@ PLANS["C03"] = {
             "the same workloads under four UB monitors: debug-assertion build (std ub_checks on every unchecked slice/unwrap/char/copy op, overflow checks, the crate's debug_assert!s), AddressSanitizer on a checks-off build, Miri (lean driver without oracles), valgrind memcheck (thorough). Structural invariants of the hooked editor/history state after every call. "
             "A worker dying by signal/abort/sanitizer report is re-run to identify the session. evaluation = one API call or component operation executed under a monitor; distinct = hash of (command size, history size, kind of call) / component run shape",
     "assumptions": ["red-zone tools see the command and history buffers as separate exact-size heap allocations", "every sanitizer stage first proves its monitor live with a canary (UB planted in the harness itself)"],
-    "min_counts": {"quick": {"ops": 3000000, "c03.component.editor_runs": 10000, "c03.lean.ops": 40000}, "thorough": {"ops": 80000000, "c03.component.editor_runs": 250000, "c03.lean.ops": 250000}},
+    "min_counts": {"quick": {"ops": 2500000, "c03.component.editor_runs": 10000, "c03.lean.ops": 30000}, "thorough": {"ops": 80000000, "c03.component.editor_runs": 250000, "c03.lean.ops": 250000}},
     "stages": _C03_STAGES,
 }
 MANIFEST_TEXT["C03"] = {
@@ -314,8 +314,8 @@ PLANS["C09"] = {
             "distinct = hash of (declaration, item-kind sequence of the line, expectation class)",
     "assumptions": ["not asserted (counted as unspecified): option at the end of the line or followed by another option / `--` (missing value), repeated option, `--` before a sub-command name, unknown sub-command in a group that has a catch-all member; parent's missing argument vs child's error: either accepted",
                     "declarations outside the grammar (user FromArgument types, cfg'd fields, generic enums) are not reached"],
-    "min_counts": {"quick": {"c09.expected_ok": 3000, "c09.expected_error": 2500, "c09.error.missing-argument": 200, "c09.error.parse-value": 500, "declarations_compiled": 200},
-                   "thorough": {"c09.expected_ok": 40000, "c09.expected_error": 35000, "c09.error.missing-argument": 3000, "c09.error.parse-value": 8000, "declarations_compiled": 1200}},
+    "min_counts": {"quick": {"c09.expected_ok": 2400, "c09.expected_error": 1600, "c09.error.missing-argument": 150, "c09.error.parse-value": 400, "declarations_compiled": 200},
+                   "thorough": {"c09.expected_ok": 30000, "c09.expected_error": 20000, "c09.error.missing-argument": 2000, "c09.error.parse-value": 5000, "declarations_compiled": 1200}},
     "stages": [dict({"custom": "declbatch"}, **_BATCHES)],
 }
 MANIFEST_TEXT["C09"] = {
